@@ -605,15 +605,15 @@ func c29(c *an.Check) {
 
 func init() {
 	register(&Def{ID: "C27", Run: c27,
-		Explain:     "Decides on SSA: floodsub's handlePublish hands a packet to handleValidMessage only past pubmessage.ExtractAndVerify ok and a successful lookup of the verified inner's channel in the local subscriptions, passing the verified packet and its verified inner; pubmessage.ExtractAndVerify succeeds only past decode, inner.Validate (non-empty channel) and SignedMsg.ExtractAndVerify under const‖inner.channel of the body it decoded, returns that inner, and propagates each failure; NewPubMessage mirrors it (MIRROR); router state only under its mutexes (LOCKSET). Inherits C01. (MUSTCALL) the sweep always removes an empty channel entry (a stale entry would keep the channel 'subscribed' for handlePublish) and keeps its announced-set in step (announce ⇒ record, withdraw ⇒ forget).",
+		Explain:     "Decides on SSA: floodsub's handlePublish hands a packet to handleValidMessage only past pubmessage.ExtractAndVerify ok and a successful lookup of the verified inner's channel in the local subscriptions, passing the verified packet and its verified inner; pubmessage.ExtractAndVerify succeeds only past decode, inner.Validate (non-empty channel) and SignedMsg.ExtractAndVerify under const‖inner.channel of the body it decoded, returns that inner, and propagates each failure; NewPubMessage mirrors it (MIRROR); router state only under its mutexes (LOCKSET). Inherits C01. (MUSTCALL) the sweep always removes an empty channel entry (a stale entry would keep the channel 'subscribed' for handlePublish) and keeps its announced-set in step (announce ⇒ record, withdraw ⇒ forget). (ORDER) subscription.Release removes exactly itself and tests emptiness after the removal; classifier shared via signedMsgCore.",
 		NotCov:      "Ed25519 soundness; timestamp semantics.",
 		Assumptions: commonAssumptions})
 	register(&Def{ID: "C28", Run: c28,
-		Explain:     "Decides on SSA: execPublish writes a packet to a peer only past (peer != claimed origin) and (peer != previous hop), forwarding the queued message; (ATOMIC) the seen-cache is used only through its atomic Add — no Get followed by a separate Set — and handleValidMessage delivers (handler goroutines, publish queue) only when Add succeeded for this message's id; router and subscription state only under their mutexes (LOCKSET). (PROVENANCE) the forwarding queue entry carries (verified packet, verified channel, arrival peer), Execute forwards with the recorded previous hop and the stream handler names its own peer as previous hop; sweep bookkeeping as in C27.",
+		Explain:     "Decides on SSA: execPublish writes a packet to a peer only past (peer != claimed origin) and (peer != previous hop), forwarding the queued message; (ATOMIC) the seen-cache is used only through its atomic Add — no Get followed by a separate Set — and handleValidMessage delivers (handler goroutines, publish queue) only when Add succeeded for this message's id; router and subscription state only under their mutexes (LOCKSET). (PROVENANCE) the forwarding queue entry carries (verified packet, verified channel, arrival peer), Execute forwards with the recorded previous hop and the stream handler names its own peer as previous hop; sweep bookkeeping as in C27. (PROVENANCE) NewPubMessage stamps timestamp.Now() at full resolution; Release discipline as in C27.",
 		NotCov:      "reachability/delivery in a mesh (topology-quantified, dynamic) and exactly-once across router restarts.",
 		Assumptions: commonAssumptions})
 	register(&Def{ID: "C29", Run: c29,
-		Explain:     "Decides on SSA: (ROLE) trackLink opens the pubsub stream only on one side of a strict order comparison of the same encoding of (local peer, remote peer), registering as initiator, while the accepting handler registers as non-initiator; subscription.Release clears its handlers, removes itself from the channel and wakes the router; Execute's sweep deletes a channel entry only when it has no subscriptions; LOCKSET on router/subscription state. (LOCKSET) a handler callback is read/called only under subscription.mtx; (WHO) channel entries are removed only by Execute's sweep; sweep bookkeeping as in C27.",
+		Explain:     "Decides on SSA: (ROLE) trackLink opens the pubsub stream only on one side of a strict order comparison of the same encoding of (local peer, remote peer), registering as initiator, while the accepting handler registers as non-initiator; subscription.Release clears its handlers, removes itself from the channel and wakes the router; Execute's sweep deletes a channel entry only when it has no subscriptions; LOCKSET on router/subscription state. (LOCKSET) a handler callback is read/called only under subscription.mtx; (WHO) channel entries are removed only by Execute's sweep; sweep bookkeeping as in C27. (MUSTCALL) the controller's subscription value releases the router subscription unconditionally; Release discipline as in C27.",
 		NotCov:      "that exactly one stream exists per link over all histories.",
 		Assumptions: commonAssumptions})
 }
